@@ -19,7 +19,7 @@ RULE = ("Area centre over the signed WGS-84 range, shape circle/rectangle/ellips
         "Non-trivial = verdict available and (rotated non-circular area whose unrotated verdict differs, or southern/western hemisphere, "
         "or centre and station on different sides of the antimeridian, or area size within 2 % of the limit).")
 ASSUMPTIONS = [
-    "no verdict inside the tolerance band (3 % of the semi-axes + 2 m), or beyond |lat| 85 degrees; areas that straddle the antimeridian are judged like any other (longitude differences taken the short way round)",
+    "no verdict inside the tolerance band (3 % of the semi-axes + 2 m + twice the distance between the two reference projections of the point), or beyond |lat| 85 degrees; areas that straddle the antimeridian are judged like any other (longitude differences taken the short way round)",
     "the 'sender' of Annex D is the source (single hop from the originator), as the implementation has no previous-hop address",
     "traffic class without SCF so that non-area forwarding means 'transmit'",
 ]
@@ -54,6 +54,9 @@ def case_s():
         "pai": st.integers(0, 1),
         "rhl": st.sampled_from([1, 2, 5, 10]),
         "max_km2": st.sampled_from([1, 10, 80, 10000]),
+        # fault injection: the link layer refuses every transmission (SendingException / PacketTooLongException) - what a reception
+        # delivers to the upper layer must not depend on whether the copy could be forwarded
+        "send_fails": st.sampled_from([None, None, None, "sending", "too_long"]),
     })
 
 
@@ -95,6 +98,16 @@ def run_case(case):
         st_ = Station(None, OWN, mib_kwargs=dict(itsGnMaxGeoAreaSize=case["max_km2"], itsGnMaxPacketDataRate=10**9,
                                                  itsGnAreaForwardingAlgorithm=AreaForwardingAlgorithm.SIMPLE))
         st_.set_position(clock.now, ego[0], ego[1])
+        if case.get("send_fails"):
+            from flexstack.linklayer.exceptions import PacketTooLongException, SendingException
+            exc = SendingException if case["send_fails"] == "sending" else PacketTooLongException
+            ll_ = st_.ll
+
+            def failing_send(packet, ll_=ll_, exc=exc):
+                ll_.sent.append(bytes(packet))          # the attempt is what the forwarding clauses are judged on
+                raise exc("injected link-layer failure")
+            ll_.send = failing_send
+            labels.append("link-layer-send-fails")
         size = rg.area_size_m2(shape, a, b)
         limit = case["max_km2"] * 1e6
         near_limit = abs(size - limit) <= 0.02 * limit
@@ -129,7 +142,8 @@ def run_case(case):
                 if conf.result_code != ResultCode.GEOGRAPHICAL_SCOPE_TOO_LARGE or sent:
                     vs.append(violation(ID, "C07/oversized-request-not-refused", "area %.0f m2 > limit %.0f m2: result %s, %d packets sent" % (size, limit, conf.result_code, len(sent))))
             else:
-                if conf.result_code != ResultCode.ACCEPTED or len(sent) != 1:
+                ok_codes = (ResultCode.ACCEPTED,) if not case.get("send_fails") else (ResultCode.MAXIMUM_LENGTH_EXCEEDED, ResultCode.UNSPECIFIED)
+                if conf.result_code not in ok_codes or len(sent) != 1:
                     vs.append(violation(ID, "C07/request-within-limit-not-sent", "area %.0f m2 <= limit %.0f m2: result %s, %d packets sent" % (size, limit, conf.result_code, len(sent))))
                 else:
                     p = rc.parse_packet(sent[0])
